@@ -575,18 +575,26 @@ func (c *Cholesky) SymRankOne(orig *Cholesky, alpha float64, x Vector) (ok bool)
 	if r, c := x.Dims(); r != n || c != 1 {
 		panic(ErrShape)
 	}
-	if orig != c {
+	if orig != c && c.chol != nil && !c.chol.IsEmpty() && c.chol.mat.N != n {
+		panic(ErrShape)
+	}
+	// copyOrig makes the receiver a copy of orig. It is called only when the
+	// update is known to succeed, so that a failed update leaves the
+	// receiver unchanged.
+	copyOrig := func() {
+		if orig == c {
+			return
+		}
 		if c.chol == nil {
 			c.chol = NewTriDense(n, Upper, nil)
 		} else if c.chol.IsEmpty() {
 			c.chol.reuseAsNonZeroed(n, Upper)
-		} else if c.chol.mat.N != n {
-			panic(ErrShape)
 		}
 		c.chol.Copy(orig.chol)
 	}
 
 	if alpha == 0 {
+		copyOrig()
 		c.cond = orig.cond
 		return true
 	}
@@ -631,6 +639,7 @@ func (c *Cholesky) SymRankOne(orig *Cholesky, alpha float64, x Vector) (ok bool)
 
 	if alpha > 0 {
 		// Compute rank-1 update.
+		copyOrig()
 		if alpha != 1 {
 			blas64.Scal(math.Sqrt(alpha), blas64.Vector{N: n, Data: work, Inc: 1})
 		}
@@ -668,7 +677,7 @@ func (c *Cholesky) SymRankOne(orig *Cholesky, alpha float64, x Vector) (ok bool)
 		blas64.Scal(alpha, blas64.Vector{N: n, Data: work, Inc: 1})
 	}
 	// Solve Uᵀ * p = x storing the result into work.
-	ok = lapack64.Trtrs(blas.Trans, c.chol.RawTriangular(), blas64.General{
+	ok = lapack64.Trtrs(blas.Trans, orig.chol.RawTriangular(), blas64.General{
 		Rows:   n,
 		Cols:   1,
 		Stride: 1,
@@ -699,9 +708,9 @@ func (c *Cholesky) SymRankOne(orig *Cholesky, alpha float64, x Vector) (ok bool)
 			sin[i] *= -1
 		}
 	}
-	workMat := getTriDenseWorkspace(c.chol.mat.N, c.chol.triKind(), false)
+	workMat := getTriDenseWorkspace(n, orig.chol.triKind(), false)
 	defer putTriWorkspace(workMat)
-	workMat.Copy(c.chol)
+	workMat.Copy(orig.chol)
 	umat := workMat.mat
 	stride := workMat.mat.Stride
 	for i := n - 1; i >= 0; i-- {
@@ -724,6 +733,7 @@ func (c *Cholesky) SymRankOne(orig *Cholesky, alpha float64, x Vector) (ok bool)
 		}
 	}
 	if ok {
+		copyOrig()
 		c.chol.Copy(workMat)
 		c.updateCond(-1)
 	}
